@@ -15,6 +15,14 @@ CHECKS = {
          "Generated-history search: every valid history of push/interrupt/finish/re-finish/stop up to length 8 (quick) or 10 (thorough), depth<=5, is enumerated exhaustively against a stack model with a harness-owned synchronous trigger (ctx.Err() of every context after every step); longer histories by a rapid state machine; the concurrent part (interrupter goroutine vs pusher/finisher) runs under the race detector and can only sample interleavings; the REPL part interrupts a nested in-process REPL while its innermost evaluation runs.",
          "Trusted: the stack model (30 lines), Go's race detector. The Go scheduler is not owned: schedule-dependent faults are found by repetition only. Finishing an inner level after its enclosing level finished is outside the domain. Liveness only via a 60 s watchdog on an evaluation that can end by cancellation only.",
          "DESIGN.md 2/C20"),
+ "C02": ("exhaustive reader x width x alignment x pattern grid + rapid call sequences against math/big reference arithmetic",
+         "Generated-case search: every reader method of *decode.D found by reflection (2448) is called inside a harness-defined format; an exhaustive grid (kind x width 1..64 x alignment 0..7 x boundary patterns x endian, all 65536 F16/FP16 words, F32/F64/F80 exponent sweeps, LEB128 edge encodings, text readers) runs on every run and rapid adds random sequences of 1..6 reads; value, error and position are compared with independent arithmetic on a plain bit vector.",
+         "Trusted: the reference arithmetic in props/c02/ref_test.go (math/big, math.Float*frombits). Little-endian values only asserted at whole-byte widths; invalid text: totality and position only; non-canonical F80 encodings and ULEB128 >= 2^63: exact value or error.",
+         "DESIGN.md 2/C02"),
+ "C06": ("enumerated mutation family + rapid sampling over corpus x formats x force, crash-isolated workers",
+         "Generated-input search over a finite mutation family (truncations, byte overwrites, bit flips, length-field saturation, block dup/removal) around ~700 sample files and harness-written files x home format / probe / any registered format x force; the whole family is enumerated for small files on their home format (<=128 bytes quick, <=512 thorough), the rest is sampled by rapid (1.6M quick); a sample goes through the whole CLI (dv, -V, torepr). Oracle: tree or decode error, never a Go panic or process death (worker journal attributes deaths, search continues behind them). 'No fault in N explored inputs of the stated family', not absence.",
+         "Trusted: Go's recover/runtime fault reporting. Non-termination is reported as suspected_hang, not decided. Force is not combined with the probe group or formats nesting it (combinatorial by construction) nor with bplist/midi (forced decodes observed not to finish). OOM deaths count only when reproduced alone under 48 GiB.",
+         "DESIGN.md 2/C06"),
 }
 
 NOT_YET = {}
